@@ -114,6 +114,37 @@ def _(c):
     c.ensure('per-call-rate/output', val.eq(out2, K.bits_to_bytes(exp2)))
     c.ensure('per-call-rate/not-stored', land(k.r == r, k.c == b - r))
 
+# ---------------------------------------------------------------- the two sponge loops, one step from an ARBITRARY state (class I)
+STEP_CFG = [(25, 7), (50, 13), (200, 72), (200, 9), (400, 144), (800, 544), (1600, 1088), (1600, 576), (1600, 1027)]
+@obligation(P, 'crysp.keccak.Keccak.__call__/absorb-step', cls='I', opaque=K.NAMES_F, cases=lambda tier: [{'b': b, 'r': r} for b, r in STEP_CFG], funcs=['crysp.keccak.Keccak.__call__', 'crysp.keccak.State.load', 'crysp.keccak.State.__xor__'],
+            note='one iteration of the absorbing loop for EVERY state and every r-bit block: S\' = f(S xor (block || 0^c)), f through its contract')
+def _(c):
+    b, r = c.case('b'), c.case('r'); w = b // 25
+    install_f(c, w)
+    k = keccak.Keccak(b=b, r=r, len=8)
+    S = sym_state(c, w, 'S'); s0 = lanes(S)
+    Pi = c.bits('Pi', r)
+    ys, loc = c.loop_body(keccak.Keccak.__call__, 0, {'self': k, 'M': None, 'bitlen': None, 'r': r, 'S': S, 'Pi': Pi})
+    bits = val.bits_of(Pi.ival, r) + [0] * (b - r)
+    exp = K._un(K.F[w](K._pk([s0[l] ^ val.from_bits(bits[w * l:w * l + w]) for l in range(25)], w)), w)
+    c.ensure('absorb', land(val.eq(lanes(loc['S']), exp), *[x.size == w for x in loc['S'].lanes]))
+    c.ensure('nothing-yielded', len(ys) == 0)
+
+@obligation(P, 'crysp.keccak.Keccak.__call__/squeeze-step', cls='I', opaque=K.NAMES_F, cases=lambda tier: [{'b': b, 'r': r} for b, r in STEP_CFG], funcs=['crysp.keccak.Keccak.__call__', 'crysp.keccak.State.dump'],
+            note='one iteration of the squeezing loop for EVERY state and every amount of output already produced: S\' = f(S), Z\' = Z || first r bits of S\'')
+def _(c):
+    b, r = c.case('b'), c.case('r'); w = b // 25
+    install_f(c, w)
+    k = keccak.Keccak(b=b, r=r, len=8)
+    S = sym_state(c, w, 'S'); s0 = lanes(S)
+    nz = 2 * r + 3
+    Z = c.bits('Z', nz); z0 = Z.ival
+    ys, loc = c.loop_body(keccak.Keccak.__call__, 1, {'self': k, 'M': None, 'bitlen': None, 'r': r, 'S': S, 'Z': Z})
+    s1 = K._un(K.F[w](K._pk(s0, w)), w)
+    allbits = [bt for l in range(25) for bt in val.bits_of(s1[l], w)]
+    c.ensure('state', val.eq(lanes(loc['S']), s1))
+    c.ensure('output', land(loc['Z'].size == nz + r, val.eq(loc['Z'].ival, z0 | (val.from_bits(allbits[:r]) << nz))))
+
 @obligation(P, 'sha3-shake/bounded', cls='B', opaque=K.NAMES_F, bound='message lengths {0,1,rate-1 bytes,rate bytes,rate+1} per function; contents symbolic',
             cases=lambda tier: [{'f': f, 'n': n} for f, rb in (('sha3_224', 144), ('sha3_256', 136), ('sha3_384', 104), ('sha3_512', 72), ('shake128', 168), ('shake256', 136)) for n in (0, 1, rb - 1, rb, rb + 1)],
             funcs=['crysp.sha.SHA3.__init__', 'crysp.sha.SHA3.__call__', 'crysp.sha.SHAKE128', 'crysp.sha.SHAKE256'], timeout=200)
